@@ -454,7 +454,7 @@ def run(ctx):
     sampled = False
     # (family, depth, sample of the deepest level (0 = all))
     # (depth-2 runs contain every expression of depth <= 1; `last` samples only the deepest level)
-    confs = ctx.pick([("legacy", 2, 3500), ("ts", 2, 2500)],
+    confs = ctx.pick([("legacy", 2, 2000), ("ts", 2, 1500)],
                      [("legacy", 2, 0), ("ts", 2, 0)])
     import dask.core  # noqa: F401 - imported before the worker processes are forked
     import dask._task_spec  # noqa: F401
@@ -476,8 +476,8 @@ def run(ctx):
                 raise MachineryError("Python twin of Val/RefsOf disagrees with TLC on %r" % (c["g"],))
         jobs += enum_jobs(ctx, fam, cases, keep=ctx.pick(1500, 6000))
         ctx.sample({"family": fam, "graph": cases[-1]["g"][-1], "value": cases[-1]["val"][-1], "refs": cases[-1]["refs"][-1]})
-    jobs += rand_jobs(ctx, ctx.pick(6000, 20000), ctx.pick([2, 3, 4], [2, 3, 4, 5]))
-    xval, rnd = absorb(ctx, jobs, pmap(_work_any, jobs, chunk=128))
+    jobs += rand_jobs(ctx, ctx.pick(3000, 12000), ctx.pick([2, 3, 4], [2, 3, 4, 5]))
+    xval, rnd = absorb(ctx, jobs, pmap(_work_any, jobs, chunk=256))
     validate_records(ctx, xval + rnd, "trace-validation:enumerated-sample+random-deeper-graphs")
     ctx.exhaustive = not sampled
     ctx.rule = ("case = one graph (surrounding nodes + the expression under test as key 'out') in the legacy or the "
